@@ -3,8 +3,8 @@
 import json
 T = json.load(open('theorems.json'))
 TXT = {
- "C01": ("Static text and printed values: the Lean interpreter model (Impl.writeNode raw/print nodes, evalPrint, tplWrites) is tied to dyntpl by a differential run on the dumped real tree over random templates of text, comments and prints (both keepFmt values, boundary data); theorems on the source-level pre-processing are pending, so the level is 'other'.",
-         "correspondence with an executable Lean model (theorems pending)"),
+ "C01": ("Lean theorems over the interpreter model: a raw node writes exactly its bytes (raw_emits), a node list is rendered node by node in source order (seq_concat, raw_raw), a print node writes prefix, value text, suffix exactly when the value is non-empty (print_emits, print_value_bytes, setBytes_then_print), and the output only grows at its end and does not depend on what was written before (output_extends, from the frame induction over the whole interpreter). Tie: Go output = the model run on the REAL parsed tree over random templates of text, comments and prints (paths of depth 1-4, indexed paths, prefix/suffix in both spellings, both keepFmt values, boundary numbers, empty strings/bytes, nil pointers, missing fields, variables re-assigned through different setters). The source pre-processing is checked by the parser oracle (compile(AST) = dumped tree), not by these theorems.",
+         "Lean 4 proof about the interpreter model + differential correspondence"),
  "C02": ("Lean theorems: an if renders exactly the branch evalCond selects (cond_selects, cond_false_no_else), the decision of a comparison is the same in any two contexts carrying the same variables (nodeCmp_same / cmp_same / get_same: history independence), literal-on-the-left uses the mirrored operator correctly (swap_int, literal_left_int), switch takes the first matching case, else the default, else nothing. Tie: random condition nests, all operators/placements/kinds, Go = model on the dumped tree.",
          "Lean 4 proof about the interpreter model + differential correspondence"),
  "C03": ("Lean theorems about the loop functions with ANY plain body (no error, no pending break): a range loop runs exactly once per element in collection order with key and value bound (rloop_once_per_element, rloop_binds, rloopWith_plain), a counter loop once per counter value while the bound comparison holds (cloop_once_per_value; closed form counterVals_lt_inc / trips_lt_inc for i<b; i++), the separator is written before every iteration but the first (sep_not_before_first, sep_before_every_later), the else branch runs iff there was no iteration (else_iff_no_iteration, rloop_nonempty_n). Tie: Go output = the model on the dumped real tree over random loop nests/sequences, every collection kind, empty collections, separators and else branches.",
